@@ -130,7 +130,8 @@ pub fn contains(This(this): This<Value>, arg: Value) -> Result<Value> {
         Value::Bytes(b) => {
             if let Value::Bytes(arg) = arg {
                 let s = arg.as_slice();
-                b.windows(arg.len()).any(|w| w == s)
+                // every byte string contains the empty one (`windows(0)` would panic)
+                s.is_empty() || b.windows(s.len()).any(|w| w == s)
             } else {
                 false
             }
